@@ -156,7 +156,9 @@ ReopenPreds(s, op, x) ==
        (op.variant # "map_mut") => /\ Clip(x.file_after.rle, x.file_before.len) = x.file_before.rle
                                    /\ (ro => x.file_after.len = x.file_before.len)>>,
   <<"C05", "WritableOpenKeepsAllocatedPrefix",
-       Clip(x.file_after.rle, P.obs.alloc) = Clip(x.file_before.rle, P.obs.alloc) /\ x.file_after.len >= x.file_before.len>>
+       /\ Clip(x.file_after.rle, P.obs.alloc) = Clip(x.file_before.rle, P.obs.alloc)
+       \* (the length of the file: for the capacities C05 quantifies over -- same, larger, absent)
+       /\ (op.cap = 0 \/ op.cap >= x.file_before.len) => x.file_after.len >= x.file_before.len>>
   >>
 
 Mutator(op) == IsAlloc(op) \/ op.k \in {"discard", "clear", "setmin", "incdisc", "truncate"}
